@@ -23,8 +23,8 @@ ASSUMPTIONS = ["members added to a class after decoration and C-implemented desc
 
 COS = [(True, False), (False, True), (True, True)]
 NAMES = ["pub", "_prot", "__priv", "__len__", "__call__", "__eq__", "__getattr__", "__repr__", "__str__", "prop", "_prot_prop",
-         "static", "classm", "wo_prop", "__unm", "__setattr__"]
-KIND = {"alias_pub": "function", "__radd__": "function", "static0": "staticmethod", "classm0": "classmethod", "apub": "function", "__unm": "function", "pub": "function", "other_pub": "function", "_prot": "function", "__priv": "function", "__len__": "function",
+         "static", "classm", "wo_prop", "__unm", "__delattr__", "__getitem__", "__contains__", "__setattr__"]
+KIND = {"__delattr__": "function", "__getitem__": "function", "__contains__": "function", "alias_pub": "function", "__radd__": "function", "static0": "staticmethod", "classm0": "classmethod", "apub": "function", "__unm": "function", "pub": "function", "other_pub": "function", "_prot": "function", "__priv": "function", "__len__": "function",
         "__call__": "function", "__eq__": "function", "__getattr__": "function", "__repr__": "function", "__str__": "function",
         "prop": "property", "_prot_prop": "property", "wo_prop": "property", "ro_prop": "property", "ro_prop_setter": "property", "static": "staticmethod", "classm": "classmethod", "__setattr__": "function"}
 REALNAME = {"__priv": "_L0__priv"}
@@ -62,6 +62,10 @@ def sel_cases():
                         members = [{"name": n, "kind": KIND[n]} for lv in levels for n in lv["members"]]
                         yield {"dom": "select", "levels": levels, "invs": [{"call": c, "setattr": s} for c, s in invs],
                                "members": members}
+                        if split in (0, 1, 3):
+                            # the constructor and __setattr__ are aliases of functions with other names
+                            yield {"dom": "select", "levels": levels, "invs": [{"call": c, "setattr": s} for c, s in invs],
+                                   "members": members, "aliases": True}
                         if split == 4 and not with_setattr:
                             for bb in ("list", "dict", "Exception"):
                                 # built-in bases without a Python-level constructor anywhere
@@ -168,7 +172,7 @@ def spec(case, mo, io):
         if n in ("prop_set", "wo_prop", "ro_prop_setter") and setattr_guarded:
             exp = sa + sa
         elif n in ("pub", "other_pub", "__len__", "__call__", "__eq__", "__getattr__", "__str__", "prop", "prop_set", "wo_prop",
-                   "ro_prop", "ro_prop_setter", "apub", "alias_pub", "__radd__"):
+                   "ro_prop", "ro_prop_setter", "apub", "alias_pub", "__radd__", "__delattr__", "__getitem__", "__contains__"):
             exp = (call + call) if _processed(case, src) else None
         elif n == "__setattr__":
             exp = (sa + sa) if _processed(case, n) else None
